@@ -8,7 +8,7 @@
 //   oracle .. the PrefixOracle hypothesis for the Lean parser on a corpus stream (driver side: checkOracle)
 //   observation = events of that read `e1|e2|...` (`-` = none) + ` buf=<code points buffered> tag=<code points cached>`
 //   events: open:<canon root>   stanza:<canon element>   ka (null element = whitespace keep-alive)   close
-//   canon element = <qname{namespaceURI} a="v"...>children</>  attributes sorted by name, xmlns declarations omitted,
+//   canon element = <local{namespaceURI} a{namespaceURI}="v"...>children</>  attributes sorted by a{ns}, xmlns declarations omitted,
 //   adjacent text merged, & < > " escaped; the whole observation percent-encoded outside 0x21..0x7e.
 //
 // Oracle (from the property text, no model involved): non-keep-alive events of the split run == those of the run
@@ -57,7 +57,7 @@ static QString canonElem(const QDomElement &e, bool withChildren)
     for (int i = 0; i < m.count(); i++) {
         auto a = m.item(i).toAttr();
         if (a.name() == u"xmlns" || a.name().startsWith(u"xmlns:")) continue;
-        as.push_back({ a.name(), a.value() });
+        as.push_back({ a.name() + QStringLiteral("{") + a.namespaceURI() + QStringLiteral("}"), a.value() });
     }
     std::sort(as.begin(), as.end(), [](auto &x, auto &y) { return x.first.toUcs4() < y.first.toUcs4(); });
     for (auto &a : as) o += QStringLiteral(" ") + a.first + QStringLiteral("=\"") + escXml(a.second) + QStringLiteral("\"");
@@ -502,7 +502,7 @@ static bool domChildren(const QString &wrapped, QString &root, std::vector<QStri
 }
 
 // returns number of violations; items = A ++ B ++ C, p = proper non-empty part of the first item of C
-static long long checkPrefixOracle(const Stream &s, long long &checks)
+static long long checkPrefixOracle(const Stream &s, long long &checks, const QString &t0 = QString())
 {
     long long viol = 0;
     size_t n = s.items.size();
@@ -515,7 +515,7 @@ static long long checkPrefixOracle(const Stream &s, long long &checks)
     }
     std::vector<int> stanzaIndex(n, -1);
     { int k = 0; for (size_t i = 0; i < n; i++) if (s.items[i].kind == 's') stanzaIndex[i] = k++; if (k != int(wholeKids.size())) return 1; }
-    auto tagAfter = [&](size_t a) { QString t; for (size_t i = 0; i < a; i++) if (s.items[i].kind == 'h') t = s.items[i].text; return t; };
+    auto tagAfter = [&](size_t a) { QString t = t0; for (size_t i = 0; i < a; i++) if (s.items[i].kind == 'h') t = s.items[i].text; return t; };
     for (size_t a = 0; a <= n; a++) {
         QString tag = tagAfter(a);
         QString seg;
@@ -845,6 +845,94 @@ int main(int argc, char **argv)
             }
         }
         stat("reconnect_histories", n);
+    }
+
+    // 12. SEVERAL streams on one connection (stream restart as after SASL: a new <stream:stream ...> header, no closing tag
+    //     before it, no connected()/encrypted() reset).  The headers differ in attributes, default namespace and prefix
+    //     declarations (xmlns:x re-bound, xmlns:db added, later dropped), the stanzas use those prefixes, so a stale cached
+    //     header shows in the namespace URIs of the delivered elements/attributes.  A restart header always starts a read (it
+    //     answers a round trip); inside the sessions every cut position is tried.  Reference = every session in one read.
+    {
+        const char *SNS = " xmlns:stream='http://etherx.jabber.org/streams'";
+        std::string HA = std::string("<?xml version='1.0'?><stream:stream xmlns='jabber:client'") + SNS + " xmlns:x='urn:first' id='one' version='1.0'>";
+        std::string HB = std::string("<stream:stream xmlns='jabber:server'") + SNS + " xmlns:x='urn:second' xmlns:db='jabber:server:dialback' id='two' version='1.0' xml:lang='de'>";
+        std::string HC = std::string("<stream:stream xmlns='jabber:client'") + SNS + " id='three'>";
+        std::string HX = std::string("<stream:stream xmlns='jabber:client'") + SNS + " xmlns:x='urn:1' id='x'>";
+        std::string HY = std::string("<stream:stream xmlns='jabber:client'") + SNS + " xmlns:x='urn:2' id='y'>";   // same length as HX
+        const char *FEAT = "<stream:features><x:ext a='1' x:b='2'/><mechanisms xmlns='urn:ietf:params:xml:ns:xmpp-sasl'><mechanism>PLAIN</mechanism></mechanisms></stream:features>";
+        const char *SUCC = "<success xmlns='urn:ietf:params:xml:ns:xmpp-sasl'/>";
+        const char *FEAT2 = "<stream:features><x:ext a='1' x:b='2'/><db:dialback/><bind xmlns='urn:ietf:params:xml:ns:xmpp-bind'/></stream:features>";
+        const char *MSG = "<message to='a@b'><body>se\xc3\xb1or</body><x:y x:z='1'/></message>";
+        const char *XEXT = "<x:ext/>";
+        const char *IQ = "<iq type='result' id='b1'/>";
+        auto session = [&](const std::string &name, const std::string &hdr, std::initializer_list<const char *> parts, bool close) {
+            Stream s; s.name = name;
+            s.items.push_back({ 'h', QString::fromUtf8(hdr.c_str()) });
+            for (const char *p : parts) {
+                QString t = QString::fromUtf8(p);
+                if (!t.isEmpty() && t[0] != u'<') { for (QChar c : t) s.items.push_back({ 'w', QString(c) }); }
+                else s.items.push_back({ 's', t });
+            }
+            if (close) s.items.push_back({ 'c', QStringLiteral("</stream:stream>") });
+            for (auto &it : s.items) { s.byteBoundaries.push_back(s.bytes.size()); s.text += it.text; s.bytes += it.text.toUtf8(); }
+            s.byteBoundaries.push_back(s.bytes.size());
+            return s;
+        };
+        std::vector<std::pair<std::string, std::vector<Stream>>> multis = {
+            { "restart-ABC", { session("A", HA, { FEAT, SUCC }, false), session("B", HB, { FEAT2, MSG, " " }, false), session("C", HC, { XEXT, IQ }, true) } },
+            { "restart-BA", { session("B", HB, { FEAT2, SUCC }, false), session("A", HA, { FEAT, MSG }, true) } },
+            { "restart-XY", { session("X", HX, { XEXT }, false), session("Y", HY, { XEXT, "\n", XEXT }, false) } },
+            { "restart-AA", { session("A", HA, { SUCC }, false), session("A", HA, { FEAT, IQ }, true) } },
+        };
+        for (auto &m : multis) {
+            auto &sess = m.second;
+            // reference: every session in one read
+            std::vector<QByteArray> ref; QByteArray all; std::vector<int> bounds;
+            for (auto &ss : sess) { ref.push_back(ss.bytes); all += ss.bytes; bounds.push_back(all.size()); }
+            bounds.pop_back();
+            auto want = nonKeepAlive(R.runBytes(ref));
+            size_t expectN = 0; for (auto &ss : sess) for (auto &it : ss.items) if (it.kind != 'w') expectN++;
+            if (want.size() != expectN) oracleFail("C03:restart-split-changes-events:" + m.first, "session-per-read run delivers " + std::to_string(want.size()) + " of " + std::to_string(expectN) + " events: " + joinEvs(want));
+            else oraclePass()++;
+            // PrefixOracleFrom per session (QDomDocument here, the Lean parser in the driver), t0 = previous header
+            QString t0;
+            for (auto &ss : sess) {
+                long long v = checkPrefixOracle(ss, poChecks, t0);
+                poViol += v;
+                if (v > 0) oracleFail("C03:prefix-oracle-violated:" + m.first + "/" + ss.name, "session oracle violated");
+                std::string op = "oracleS " + (t0.isEmpty() ? std::string("-") : hexOf(t0.toUtf8()));
+                for (auto &it : ss.items) { op += " "; op += it.kind; op += hexOf(it.text.toUtf8()); }
+                corr(op, v == 0 ? "ok" : "violated");
+                t0 = ss.items[0].text;
+            }
+            auto runCuts = [&](std::vector<int> cuts, const char *how) {
+                for (int b : bounds) cuts.push_back(b);
+                std::sort(cuts.begin(), cuts.end());
+                cuts.erase(std::unique(cuts.begin(), cuts.end()), cuts.end());
+                std::vector<QByteArray> chunks; int prev = 0;
+                for (int c : cuts) { if (c <= 0 || c >= all.size()) continue; chunks.push_back(all.mid(prev, c - prev)); prev = c; }
+                chunks.push_back(all.mid(prev));
+                auto got = nonKeepAlive(R.runBytes(chunks));
+                if (got == want) oraclePass()++;
+                else {
+                    std::string cs2; for (int c : R.actualCuts) cs2 += (cs2.empty() ? "" : ",") + std::to_string(c);
+                    oracleFail("C03:restart-split-changes-events:" + m.first, std::string(how) + " bytes=" + hexOf(all) + " cuts=" + cs2 + " session-per-read=" + joinEvs(want) + " split=" + joinEvs(got));
+                    stat("oracle_fail_restart");
+                }
+                stat("runs_restart");
+            };
+            for (int k = 1; k < all.size(); k++) runCuts({ k }, "restart1");
+            { std::vector<int> c; for (int k = 1; k < all.size(); k++) c.push_back(k); runCuts(c, "restartbytewise"); }
+            for (int j = 0; j < (thorough ? 400 : 40); j++) {
+                std::vector<int> c; int kk = 2 + int(rng.below(6));
+                for (int i = 0; i < kk; i++) c.push_back(1 + int(rng.below(uint32_t(all.size() - 1))));
+                runCuts(c, "restartrandom");
+            }
+            // correspondence only: a restart header in the MIDDLE of a read is not recognised (anchored expression)
+            R.runBytes({ all });
+            if (sess.size() >= 2) R.runBytes({ sess[0].bytes + sess[1].bytes.left(sess[1].byteBoundaries[1]), sess[1].bytes.mid(sess[1].byteBoundaries[1]) });
+            stat("restart_streams");
+        }
     }
 
     stat("prefix_oracle_checks", poChecks);
